@@ -70,6 +70,22 @@ def run(prop, tier):
             sc = lscs[f["line"] - 1]
             rep.violation("C13 C13_KeyedByEffectiveAddress [%s]" % listener_check.describe(sc, lobs[f["line"] - 1]), {"failing_clauses": sorted(f["clauses"]), "scenario": sc, "observed": lobs[f["line"] - 1], "seed": seed})
     notes.append("listener stage: %d arrival histories with a limiter judged by Trace_Listener" % len(lobs))
+    # "no more than `limit`" also when admissions are decided at the same moment: n connections from one address while a tracing layer
+    # stalls inside RateLimiter::enqueue (i.e. while the limiter is held) -- a contended limiter must not admit unchecked
+    race = [{"family": "C15race", "cfg": {"proxy": "off", "limit": lim, "timeoutMs": 3000}, "n": n} for lim, n in ((1, 4), (2, 5), (3, 3))]
+    rinp, routp = os.path.join(wd, "race_in.ndjson"), os.path.join(wd, "race_obs.ndjson")
+    vlib.write_ndjson(rinp, race)
+    vlib.run_bin(hx, ["listener", "--stall-enqueue-ms", "60", "--in", rinp, "--out", routp, "--parallel", "1"], timeout=600)
+    robs = vlib.read_ndjson(routp)
+    rt = vlib.run_tlc("Trace_Listener", "Trace_Listener.cfg", wd, workers=1, timeout=600, markers=("FAIL", "NOTCONSUMED"),
+                      env_extra={"TRACE": routp, "PROP": "C15"}, java_opts=["-Xss1g", "-Dtlc2.tool.queue.IStateQueue=StateDeque"])
+    if not rt.ok or rt.marked["NOTCONSUMED"] or rt.distinct != len(robs) + 1 or len(robs) != len(race):
+        raise vlib.ToolError("Trace_Listener did not consume all %d race records:\n%s" % (len(robs), rt.output[-2000:]))
+    for f in rt.marked["FAIL"]:
+        sc = race[f["line"] - 1]
+        rep.violation("C13 C13_LimitHoldsUnderContention [%d connections of one address at the same moment, limit %d]" % (sc["n"], sc["cfg"]["limit"]),
+                      {"failing_clauses": sorted(f["clauses"]), "scenario": sc, "observed": robs[f["line"] - 1], "seed": seed})
+    notes.append("listener stage: %d bursts of simultaneous connections from one address (limiter held for 60 ms per decision)" % len(robs))
     # "duration" and "limit" as the operator configures them (seconds, connections), through the application itself (passage::start)
     A = "203.0.113.10:40001"
     app = [{"family": "C13app", "proxy": True, "allowV1": True, "allowV2": True, "limit": lim, "durationS": dur, "timeoutS": 3,
